@@ -7,8 +7,11 @@ open SSVerif
 #print axioms C02_unpruned_is_dp
 #print axioms C02_pathScore_sound
 #print axioms C02_hmmStep_eq_ideal
+#print axioms C02_hmmStep5_eq_ideal
 #print axioms C02_inv_clear
 #print axioms C02_hmmEdges_ideal
 #print axioms C02_alignment_iff_labelled
 #print axioms C02_alignment_sentence
+#print axioms C02_build_labelsOK
+#print axioms C02_build_optimum_over_sentences
 #print axioms C02_hist_domination_exact
